@@ -233,6 +233,13 @@ func knownFindingReproducers(c *Ctx) {
 	if res := runProgramTree(programSource(tc)); !bytes.Equal(res.noLines, []byte{2, 1, 7, 10}) {
 		c.Fail("callback-panic-is-fatal", map[string]string{"tree": hx(encTree(tc, false)), "source": programSource(tc), "got": hx(res.noLines), "want": "0201070a", "host_panic": res.hostMsg})
 	}
+	// regression (fix 7a741c2, former finding recovered-panic-stays-in-chain): a panic recovered by
+	// a deferred call leaves the chain although the function has another deferred call, which panics
+	ts := []*Ins{{Tok: tDeferFn, Body: []*Ins{{Tok: tPanic, N: 5}}}, {Tok: tDeferFn, Body: []*Ins{{Tok: tRecover}}}, {Tok: tPanic, N: 2}}
+	c.Count("evaluations")
+	if res := runProgramTree(programSource(ts)); !bytes.Equal(res.noLines, []byte{2, 1, 2, 11, 1, 5, 0, 0, 0}) {
+		c.Fail("recovered-panic-left-in-chain", map[string]string{"tree": hx(encTree(ts, false)), "source": programSource(ts), "got": hx(res.noLines), "want": "0201020b0105000000", "host_panic": res.hostMsg})
+	}
 	// a deferred native function that panics: Go adds the panic to the chain (and it can be recovered)
 	t := []*Ins{{Tok: tDeferNat, K: 4, N: 1}}
 	c.Count("evaluations")
@@ -416,8 +423,9 @@ func outcomeCode(enc []byte) int {
 // classify names the failure signature of a tree on which the VM disagrees
 // with Go. flags are the finding triggers met by the Go run of the tree
 // (FramesM.go_flags): a deferred call panicked after a recovery in the same
-// activation; a recovery happened while an aborted panic was listed. A known
-// signature is given only when the VM does what the model of today's machine does.
+// activation (no longer a finding: repaired by 7a741c2); a recovery happened
+// while an aborted panic was listed. A known signature is given only when the
+// VM does what the model of today's machine does.
 func classify(t []*Ins, flags [2]bool, equalsModel bool) string {
 	if equalsModel {
 		switch {
@@ -425,8 +433,6 @@ func classify(t []*Ins, flags [2]bool, equalsModel bool) string {
 			return "native-defer-panic-host-panic"
 		case flags[1]:
 			return "nested-recover-drops-active-panic"
-		case flags[0]:
-			return "recovered-panic-stays-in-chain"
 		}
 	}
 	return "trace-or-outcome-differs-from-go"
